@@ -81,6 +81,7 @@ func runC13(r *Run) {
 	c13HashFunction(r)
 	c10HashChainPod(r, "C13.R2", true)
 	c13PodTemplate(r, c.md5Key)
+	c13Imports(r)
 }
 
 // ---------------------------------------------------------------------------------------------
